@@ -258,3 +258,18 @@ for _c in list(_REG):
             _c2.prop = _prop
             _c2.name = _prop + '/driver.' + _c.name.split('/', 1)[1]
             _REG.append(_c2)
+
+# ... and for every Type A bit rate: whenever the driver has switched the chip's receive CRC check off (check_crc = 0
+# in the last InSetProtocol of the exchange) it verifies CRC_A itself - the two sites must agree at 212A/424A too
+contract(R + 'Chipset.in_set_protocol', 'C14', dict(self=Any(), data=Any()), name='C14/rcs380.in_set_protocol',
+         assumed=True, note='InSetProtocol: accepted, refused with a status, or the host link fails',
+         raises={'IOError': [], R + 'StatusError': []})
+ATGT = lambda: OneOf(*[Obj('nfc.clf:RemoteTarget', _partial=False, _brty_send=b, _brty_recv=b,   # noqa
+                           sens_res=Bytes(2, 2, mutable=True), sel_res=Bytes(1, 1, mutable=True),
+                           sdd_res=Bytes(4, 10, mutable=True)) for b in ('106A', '212A', '424A')])
+contract(R + 'Device.send_cmd_recv_rsp', 'C14',
+         dict(self=RDEV(), target=ATGT(), data=Bytes(1, 262, mutable=True), timeout=Const(0.1)),
+         name='C14/rcs380.send_cmd_recv_rsp.crc-any-rate', raises=DOC, use=RUSE + ['C14/rcs380.in_set_protocol'],
+         ensures=[('O-crc.checked', 'implies(result is not None and len(result) > 2 and '
+                                    'call_kwarg("C14/rcs380.in_set_protocol", "check_crc", 1) == 0, '
+                                    'was_called("C13/check_crc_a") and call_ret("C13/check_crc_a") != False)')])
